@@ -10,6 +10,7 @@ import (
 	"io"
 	"os"
 	"path/filepath"
+	"reflect"
 	"runtime/debug"
 	"strings"
 	"time"
@@ -942,7 +943,68 @@ func checkMany(mc ManyCase) (key, msg string, used int64) {
 	return "total.write." + fam + ".panic:" + panicSite(stack), fmt.Sprintf("writer %s on a list of %d plain cues: %s\n%s", mc.Writer, mc.N, res, firstFrames(stack)), used
 }
 
+// MetaCase: one string field of the metadata holds a text of N bytes (every width a fixed-size header field could
+// have, and one off), ASCII or two-byte characters; every other part of the list is plain.
+type MetaCase struct {
+	Field  string `json:"metadata_field"`
+	N      int    `json:"bytes"`
+	Wide   bool   `json:"two_byte_characters"`
+	Writer string `json:"writer"`
+}
+
+func metaStringFields() []string {
+	var o []string
+	t := reflect.TypeOf(astisub.Metadata{})
+	for i := 0; i < t.NumField(); i++ {
+		if t.Field(i).Type.Kind() == reflect.String {
+			o = append(o, t.Field(i).Name)
+		}
+	}
+	return o
+}
+
+func checkMeta(mc MetaCase) (key, msg string, used int64) {
+	s := astisub.NewSubtitles()
+	s.Metadata = &astisub.Metadata{Framerate: 25}
+	v := strings.Repeat("x", mc.N)
+	if mc.Wide {
+		v = strings.Repeat("\u00e9", mc.N/2) + strings.Repeat("x", mc.N%2)
+	}
+	reflect.ValueOf(s.Metadata).Elem().FieldByName(mc.Field).SetString(v)
+	s.Items = append(s.Items, &astisub.Item{StartAt: time.Second, EndAt: 2 * time.Second, Lines: []astisub.Line{{Items: []astisub.LineItem{{Text: "x"}}}}})
+	res, used, stack := guarded(2000+mc.N, func() { callWriter(mc.Writer, s) })
+	fam := strings.Split(mc.Writer, "-")[0]
+	switch {
+	case res == "":
+		return "", "", used
+	case res == "budget":
+		return "total.write." + fam + ".step-budget", fmt.Sprintf("writer %s exceeded its step budget with Metadata.%s of %d bytes", mc.Writer, mc.Field, mc.N), used
+	}
+	return "total.write." + fam + ".panic:" + panicSite(stack), fmt.Sprintf("writer %s with Metadata.%s of %d bytes (two-byte characters: %v): %s\n%s", mc.Writer, mc.Field, mc.N, mc.Wide, res, firstFrames(stack)), used
+}
+
 func writersRun(c *core.Ctx) {
+	for _, f := range metaStringFields() {
+		for _, n := range []int{0, 1, 2, 3, 5, 6, 7, 8, 9, 15, 16, 17, 31, 32, 33, 63, 64, 65, 575, 576, 577, 1024} {
+			for _, wide := range []bool{false, true} {
+				for _, w := range writerNames {
+					if !c.Mine() {
+						continue
+					}
+					mc := MetaCase{f, n, wide, w}
+					key, msg, _ := checkMeta(mc)
+					out := "ok"
+					if key != "" {
+						out = key
+					}
+					c.Record("write.meta."+w, core.Hash64(out), core.Hash64("meta", w, f, fmt.Sprint(n, wide)), func() interface{} { return mc })
+					if key != "" {
+						c.Violate("meta", key, msg, mc, n)
+					}
+				}
+			}
+		}
+	}
 	manyN := []int{255, 256, 257, 999, 1000, 9999, 10000, 65535, 65536, 99999, 100000, 100001}
 	if c.Tier == core.Thorough {
 		manyN = append(manyN, 131072, 262144, 999999, 1000000)
@@ -1017,6 +1079,12 @@ func replay(sub string, raw json.RawMessage) (string, bool) {
 	if !hooks.Instrumented {
 		// plain build: still meaningful for panics (no step budget)
 	}
+	if sub == "meta" {
+		var mc MetaCase
+		json.Unmarshal(raw, &mc)
+		k, m, _ := checkMeta(mc)
+		return m, k != ""
+	}
 	if sub == "many" {
 		var mc ManyCase
 		json.Unmarshal(raw, &mc)
@@ -1046,7 +1114,7 @@ func init() {
 		ID: "C08", Level: "exploration",
 		Rule: "readers: three exhaustively enumerated input families fed to the reader of their format (and across formats, and through the extension-dispatching opener): (1) all words of length <=L over a per-format alphabet of 12-13 lexemes, (2) the full single-mutation ball around every corpus document (every prefix, every single-byte deletion, every single-byte replacement by each of 12 bytes, every line-boundary splice of two same-format documents), (3) structured binary variations (STL GSI fields, DFC/DSC/CCT strings, every byte value at TTI text positions and header bytes, diacritic-led byte pairs; TS families contributed by the teletext encoder); writers: a nil-lattice of the public types explored within B deviations (every optional pointer/map independently present, nil or odd; 11 text atoms; 5 time atoms) to all five writers (TTML x 3 indents). Oracle: no panic (recover at the public entry point; a panic inside the third-party demuxer is excluded) and steps executed in package astisub <= 50000 + 400*len(input) (statement-level step counter of the instrumented build; no wall-clock oracle), also on scaled inputs of 2^k cues; distinct = (reader, input bytes) / (writer, lattice point)",
 		Scope: map[core.Tier]string{
-			core.Quick:    "token words L<=5 (cross-format L<=3); mutation ball around all corpus documents; STL structured families; scaled inputs up to 4096 cues and, inside one cue, up to 4096 lines / tagged runs / header lines; teletext page x PID option values (17 x 11) on every sample stream; writer lattice B=2; plain lists of 255..100001 cues (12 counts around digit-count and power-of-two boundaries) to every writer",
+			core.Quick:    "token words L<=5 (cross-format L<=3); mutation ball around all corpus documents; STL structured families; scaled inputs up to 4096 cues and, inside one cue, up to 4096 lines / tagged runs / header lines; teletext page x PID option values (17 x 11) on every sample stream; writer lattice B=2; every string field of the metadata at 22 lengths (0..1024 bytes, around 8/16/32/64/576) in ASCII and two-byte characters; plain lists of 255..100001 cues (12 counts around digit-count and power-of-two boundaries) to every writer",
 			core.Thorough: "token words L<=6 (cross-format L<=4); writer lattice B=3; plain lists up to 1000000 cues",
 		},
 		Assumptions: []string{"Go toolchain and standard library", "steps inside dependencies (bufio, encoding/xml, x/net/html, astits) are not counted: their loops are bounded by the input length", "instrumented build = plain build with inert hooks (validated in setup)"},
